@@ -138,50 +138,104 @@ pub proof fn lemma_run_1(s: Seq<u8>)
 }
 '''
 
-CLASS_VALIDATORS = (7, 8, 10, 11, 19, 20, 27)
+
+TREE_VALIDATORS = (1, 4, 5, 6, 7, 8, 10, 11, 19, 20, 23, 27)
+# extra proof lines at the start of the body (bridges between `X[a..]` slices and index ranges of s)
+EXTRA_PROOF = {
+    1: 'if s.len() >= 2 { lemma_all_hexdigit_from(s@, 2); }',
+    23: 'if s.len() >= 1 { lemma_all_digit_from(s@, 1); lemma_sub1_index(s@); }',
+}
+
+
+class Shape(Exception):
+    pass
+
+
+def tree_lemma(n, d, cap=600):
+    """Closed form st_n(s) of ref_run_n(0, s) for a DFA whose live part is a DAG plus self-loops whose other exits
+    all lead to the dead state; the induction lemma ref_run_n(0, s) == st_n(s) is *proved by Verus*, so nothing about
+    this generator is trusted."""
+    dead = d.dead
+    if dead is None:
+        raise Shape('no dead state')
+    loops = {}
+    for q in range(d.n):
+        if q == dead:
+            continue
+        own = [c for c in range(256) if d.delta[q][c] == q]
+        if own:
+            if any(d.delta[q][c] not in (q, dead) for c in range(256)):
+                raise Shape('state %d has a self-loop and another live exit' % q)
+            loops[q] = own
+    nodes = [0]
+    loopnodes = set()
+    maxdepth = [0]
+
+    def gen(q, depth, path):
+        nodes[0] += 1
+        if nodes[0] > cap:
+            raise Shape('tree expansion too large')
+        if q == dead:
+            return '%dint' % dead
+        if q in loops:
+            loopnodes.add((depth, q))
+            return '(if forall|k: int| %d <= k < s.len() ==> cls_%d_%d(#[trigger] s[k]) { %dint } else { %dint })' % (depth, n, q, q, dead)
+        if q in path:
+            raise Shape('cycle through state %d' % q)
+        maxdepth[0] = max(maxdepth[0], depth + 1)
+        tg = {}
+        for c in range(256):
+            t = d.delta[q][c]
+            if t != dead:
+                tg.setdefault(t, []).append(c)
+        inner = ''
+        for t2, bs in sorted(tg.items()):
+            inner += 'if %s { %s } else ' % (cond(bs).replace('c', 's[%d]' % depth), gen(t2, depth + 1, path | {q}))
+        inner += '{ %dint }' % dead
+        return '(if s.len() == %d { %dint } else { %s })' % (depth, q, inner)
+
+    body = gen(0, 0, frozenset())
+    out = []
+    for q, own in sorted(loops.items()):
+        out.append('pub open spec fn cls_%d_%d(c: u8) -> bool { %s }' % (n, q, cond(own)))
+    out.append('pub open spec fn st_%d(s: Seq<u8>) -> int {\n    %s\n}' % (n, body))
+    pf = ['pub proof fn lemma_run_%d(s: Seq<u8>)' % n, '    ensures ref_run_%d(0, s) == st_%d(s)' % (n, n), '    decreases s.len()', '{',
+          '    if s.len() > 0 {', '        let t = s.drop_last();', '        lemma_run_%d(t);' % n]
+    for k in range(maxdepth[0]):
+        pf.append('        if t.len() > %d { assert(t[%d] == s[%d]); }' % (k, k, k))
+    for depth, q in sorted(loopnodes):
+        c = 'cls_%d_%d' % (n, q)
+        pf.append('        if t.len() >= %d {' % depth)
+        pf.append('            if (forall|k: int| %d <= k < t.len() ==> %s(#[trigger] t[k])) && %s(s.last()) {' % (depth, c, c))
+        pf.append('                assert forall|k: int| %d <= k < s.len() implies %s(#[trigger] s[k]) by { if k < t.len() { assert(t[k] == s[k]); } }' % (depth, c))
+        pf.append('            }')
+        pf.append('            if forall|k: int| %d <= k < s.len() ==> %s(#[trigger] s[k]) {' % (depth, c))
+        pf.append('                assert forall|k: int| %d <= k < t.len() implies %s(#[trigger] t[k]) by { assert(t[k] == s[k]); }' % (depth, c))
+        pf.append('            }')
+        pf.append('        }')
+    pf += ['    }', '}']
+    return '\n'.join(out) + '\n' + '\n'.join(pf) + '\n', dict(tree_nodes=nodes[0], loop_nodes=len(loopnodes), depth=maxdepth[0])
 
 
 def make_unit(infos):
     spec = ''
     fns = []
-    for n in CLASS_VALIDATORS:
+    shapes = {}
+    for n in TREE_VALIDATORS:
         if n not in infos or infos[n]['kind'] != 'hand':
             continue
         d = infos[n]['dfa']
-        live = [q for q in range(d.n) if q != d.dead and q != 0]
-        ok = d.n == 3 and len(live) == 1 and d.accept == {live[0]} and all(d.delta[0][c] in (live[0], d.dead) for c in range(256)) \
-            and all(d.delta[live[0]][c] in (live[0], d.dead) for c in range(256))
-        if not ok:
-            raise Lost('regex %d: minimal DFA is no longer of the shape start/dead/accept (regex_hand lemma does not apply)' % n)
-        acc = live[0]
-        A = cond([c for c in range(256) if d.delta[0][c] == acc])
-        B = cond([c for c in range(256) if d.delta[acc][c] == acc])
-        spec += ref_text(n, d) + CLASS_LEMMA % dict(n=n, A=A, B=B, acc=acc, dead=d.dead)
+        try:
+            lem, sh = tree_lemma(n, d)
+        except Shape as e:
+            raise Lost('regex %d: minimal DFA of %r is outside the shape the generated lemma handles (%s)' % (n, infos[n]['regex'], e))
+        shapes[n] = sh
+        spec += ref_text(n, d) + '\n' + lem
+        extra = EXTRA_PROOF.get(n, '')
         fns.append(FnSpec('validate_regex_%d' % n, F, ret='r', body_sub=R15, sig_sub=[(r'pub\(crate\) fn', 'pub fn')],
                           ensures=['r == ref_accept_%d(ref_run_%d(0, s@))' % (n, n)],
-                          proofs=[dict(at='body_start', text='proof { lemma_run_%d(s@); }' % n)]))
-    if 1 in infos and infos[1]['kind'] == 'hand':
-        d = infos[1]['dfa']
-        s1, s2, s3 = d.run(b'0'), d.run(b'0x'), d.run(b'0xa')
-        if d.n != 5 or d.run(b'0X') != s2 or d.run(b'0xaF') != s3 or d.accept != {s3} or len({0, s1, s2, s3, d.dead}) != 5:
-            raise Lost('regex 1: minimal DFA is no longer the 5-state chain the hand-written lemma assumes')
-        spec += ref_text(1, d) + LEMMA_1 % dict(s1=s1, s2=s2, s3=s3, dead=d.dead)
-        fns.append(FnSpec('validate_regex_1', F, ret='r', body_sub=R15, sig_sub=[(r'pub\(crate\) fn', 'pub fn')],
-                          ensures=['r == ref_accept_1(ref_run_1(0, s@))'],
-                          proofs=[dict(at='body_start', text='''proof {
-    lemma_run_1(s@);
-    if s.len() >= 2 {
-        let p = s@.subrange(0, 2);
-        assert(p.len() == 2 && p[0] == s@[0] && p[1] == s@[1]);
-        let lx = seq![48u8, 120u8];
-        let ux = seq![48u8, 88u8];
-        assert(lx.len() == 2 && lx[0] == 48 && lx[1] == 120 && ux.len() == 2 && ux[0] == 48 && ux[1] == 88);
-        assert((p =~= lx) == (s@[0] == 48 && s@[1] == 120));
-        assert((p =~= ux) == (s@[0] == 48 && s@[1] == 88));
-    }
-    if s.len() >= 3 {
-        assert forall|k: int| 0 <= k < s.len() - 2 implies s@.subrange(2, s.len() as int)[k] == s@[k + 2] by {}
-    }
-}''')]))
-    return Unit(name='regex_hand', prop='C19', spec=spec, fns=fns,
-                dropped=['doc comments; `pub(crate)` -> `pub`'])
+                          proofs=[dict(at='body_start', text='proof { lemma_run_%d(s@); %s }' % (n, extra))]))
+    u = Unit(name='regex_hand', prop='C19', spec=spec, fns=fns,
+             dropped=['doc comments; `pub(crate)` -> `pub`'])
+    u.shapes = shapes
+    return u
